@@ -27,8 +27,13 @@ type tnode struct {
 
 var c10Names = []string{"a", "b"}
 
+var c10Lite bool
+
 func c10Name() []rune {
 	base := []rune(c10Names[vChoice("name", len(c10Names))])
+	if c10Lite {
+		return base
+	}
 	out := make([]rune, len(base))
 	for i, r := range base {
 		out[i] = vIteRune(vBool("name.upper"), r-32, r)
@@ -50,17 +55,21 @@ func c10Gen(budget *int, depth int) []*tnode {
 			if len(out) > 0 && out[len(out)-1].kind == ndText {
 				vAssume(false) // adjacent text nodes are one text node
 			}
-			ln := 1 + vChoice("text.len", 2)
-			for i := 0; i < ln; i++ {
-				r := vRune("t")
-				vAssume(vAnd(r != '{', r != '}'))
-				n.text = append(n.text, r)
+			if c10Lite {
+				n.text = []rune{'x'}
+			} else {
+				ln := 1 + vChoice("text.len", 2)
+				for i := 0; i < ln; i++ {
+					r := vRune("t")
+					vAssume(vAnd(r != '{', r != '}'))
+					n.text = append(n.text, r)
+				}
 			}
 		case k == ndComment:
-			n.pad = vChoice("comment.words", 2) == 1
+			n.pad = !c10Lite && vChoice("comment.words", 2) == 1
 		default:
 			n.name = c10Name()
-			n.pad = vChoice("pad", 2) == 1
+			n.pad = !c10Lite && vChoice("pad", 2) == 1
 			if k >= ndSection {
 				if depth <= 0 {
 					vAssume(false)
@@ -545,6 +554,45 @@ func H_C10_malformed() {
 	vAssert(!panicked, "malformed:no-crash")
 	if !panicked {
 		vAssert(err != nil, "malformed:rejected")
+	}
+	vDone()
+}
+
+// H_C10_structure: larger template trees (NODES nodes, nesting DEPTH) with concrete text,
+// lower-case names and concrete variable states: nesting, closers and section conditions.
+func H_C10_structure() {
+	c10Lite = true
+	budget := vParam("NODES")
+	nodes := c10Gen(&budget, vParam("DEPTH"))
+	vAssume(len(nodes) > 0)
+	text := c10Print(nodes, nil)
+	var vars []c10Var
+	m := map[string]string{}
+	for _, base := range c10Names {
+		switch vChoice("var.state", 3) {
+		case 1:
+			vars = append(vars, c10Var{base, ""})
+			m[base] = ""
+		case 2:
+			vars = append(vars, c10Var{base, "V/" + base})
+			m[base] = "V/" + base
+		}
+	}
+	t := NewMustacheTemplate()
+	t.SetAutoVariables(false)
+	var err error
+	if guardedM(func() { err = t.SetTemplate(string(text)) }) {
+		vAssert(false, "structure:well-formed-template-accepted")
+		return
+	}
+	vAssert(err == nil, "structure:well-formed-template-accepted")
+	if err != nil {
+		return
+	}
+	got, rerr := t.EvaluateWithVariables(m)
+	vAssert(rerr == nil, "structure:render-succeeds")
+	if rerr == nil {
+		vAssert(got == c10Render(nodes, vars), "structure:render-equals-reference")
 	}
 	vDone()
 }
